@@ -581,6 +581,7 @@ func Ints(errBuf *strings.Builder, validName, objName, fieldName string, tv refl
 	valStr := ""
 	errSuffix := ""
 	_, split, cusMsg := ParseValidNameKV(validName)
+	split = strings.Trim(split, "'") // 分割符可以被 '' 包裹, 如: ints=','
 	if split == "" {
 		split = ","
 	}
